@@ -105,6 +105,8 @@ fallible step (`osCreate`, `fileWrite`, `seek`, `hashCopy`, `wrWrite`, `wrClose`
 steps are executed; `none` (or a list that has run out) = the step works, `some k` = it fails
 (for a step that writes or reads: after `k` bytes). -/
 structure Mach where
+  /-- the name under which the file was opened / created (inside the one cache directory) -/
+  fname : String
   data : Bytes
   pos : Nat
   hash : Bytes
@@ -142,11 +144,11 @@ def machIO (H : Bytes → Bytes) (deflate : Bytes → Bytes) (store : Store) : F
   osOpen name m :=
     match store name with
     | none => (m, some .notFound)
-    | some f => ({ m with data := f, pos := 0 }, none)
-  osCreate _ m :=
+    | some f => ({ m with fname := name, data := f, pos := 0 }, none)
+  osCreate name m :=
     let (f, m) := m.pop
     match f with
-    | none => ({ m with data := [], pos := 0 }, none)
+    | none => ({ m with fname := name, data := [], pos := 0 }, none)
     | some _ => (m, some .create)
   fileRead p m :=
     let c := (m.data.drop m.pos).take p.length
